@@ -157,12 +157,75 @@ impl C01 {
     }
 }
 
+impl C01 {
+    /// Polynomial messages beyond degree four: monomials of degree 5..8 over two to four ids, the ids in any order with
+    /// their repetitions scattered ([1, 2, 1, 3, 1]); the schema puts no limit on the degree of a monomial.
+    fn run_high_degree(&self, t: &mut Tape, regime: Regime, ctx: &mut Ctx) -> PResult {
+        ctx.label("mode=high-degree");
+        let ids = gen_ids(t, 4);
+        let nterms = 1 + t.choice(3);
+        let mut terms: Vec<(Vec<u64>, f64)> = vec![];
+        for _ in 0..nterms {
+            let deg = 5 + t.choice(4);
+            let m: Vec<u64> = (0..deg).map(|_| *t.pick(&ids)).collect();
+            let mut sorted = m.clone();
+            sorted.sort_unstable();
+            if sorted != m && sorted.windows(2).any(|w| w[0] == w[1]) {
+                ctx.label("high-degree-monomial-with-scattered-repeats");
+            }
+            terms.push((m, gen_coeff(t, regime, false)));
+        }
+        if t.coin() {
+            terms.push((vec![], gen_coeff(t, regime, false)));
+        }
+        let f = crate::mk::fpoly(crate::mk::polynomial(terms.clone()));
+        let used = syntactic_ids(&f);
+        // small values: the eighth power of k/8 is still exact
+        let mut state = v1::State::default();
+        for id in &used {
+            state.entries.insert(*id, match regime {
+                Regime::Dyadic => [1.0, -1.0, 0.5, 2.0, -0.5, 1.5, 0.0, -2.0][t.choice(8)],
+                Regime::General => [1.1, -0.9, 0.3, 2.0, -1.7, 1e-3, 0.0, 3.0][t.choice(8)],
+            });
+        }
+        ctx.fp_msg(&f);
+        ctx.fp_state(&state);
+        ctx.fp(&[0xD5]);
+        ctx.nontrivial();
+        ctx.sample_with(|| json!({"mode": "high-degree polynomial", "function": fn_json(&f), "state": format!("{:?}", state.entries)}));
+        let r = if t.coin() {
+            f.evaluate(&state)
+        } else {
+            match &f.function {
+                Some(v1::function::Function::Polynomial(p)) => p.evaluate(&state),
+                _ => unreachable!(),
+            }
+        };
+        let (v, got_ids) = match r {
+            Ok(x) => x,
+            Err(e) => return fail("C01/high-degree/err-on-total-state", format!("evaluate failed on a total state: {e} for {f:?}")),
+        };
+        check_value("high-degree", v, &f, &state, regime, ctx)?;
+        if got_ids != used {
+            return fail("C01/high-degree/id-set", format!("returned id set {got_ids:?} differs from ids occurring in the message {used:?} for {f:?}"));
+        }
+        for victim in used.iter().copied().collect::<Vec<_>>() {
+            let mut s2 = state.clone();
+            s2.entries.remove(&victim);
+            if let Ok((v, _)) = f.evaluate(&s2) {
+                return fail("C01/high-degree/missing-var-accepted", format!("evaluate returned {v} although the state lacks id {victim} which occurs in {f:?}"));
+            }
+        }
+        Ok(())
+    }
+}
+
 impl Property for C01 {
     fn id(&self) -> &'static str {
         "C01"
     }
     fn rule(&self) -> &'static str {
-        "case = function message (any oneof state, any wire-legal representation, <=8 raw terms, degree<=4, ids incl. 0 and u64::MAX; about 5% of the cases: 20..80 raw terms over as many ids, or 9..300 terms (sizes around the powers of two) over ids 0..n / 1..=n / 1000.. with a packed state, also with a hole at the first / last / an interior id) x state; entry points Function / typed evaluate and evaluate_samples; \
+        "case = function message (any oneof state, any wire-legal representation, <=8 raw terms, degree<=4, and polynomial messages with monomials of degree 5..8 whose repeated ids are scattered, ids incl. 0 and u64::MAX; about 5% of the cases: 20..80 raw terms over as many ids, or 9..300 terms (sizes around the powers of two) over ids 0..n / 1..=n / 1000.. with a packed state, also with a hole at the first / last / an interior id) x state; entry points Function / typed evaluate and evaluate_samples; \
          oracle = exact rational value of the raw message fields; non-trivial = >=2 raw terms and (un-normalised representation or missing-variable case or multi-sample case); \
          distinct = sha256 of (encoded message, state, mode)"
     }
@@ -193,6 +256,8 @@ impl Property for C01 {
             "sweep=many-variables",
             "big-missing-interior-var",
             "samples-typed",
+            "mode=high-degree",
+            "high-degree-monomial-with-scattered-repeats",
         ]
         .iter()
         .map(|s| s.to_string())
@@ -284,6 +349,9 @@ impl Property for C01 {
         };
         if t.p(14) {
             return self.run_big(t, regime, &cfg, ctx);
+        }
+        if t.p(10) {
+            return self.run_high_degree(t, regime, ctx);
         }
         let ids = gen_ids(t, 5);
         let f = gen_function(t, &ids, &cfg, ctx);
